@@ -5,7 +5,7 @@ from .. import tables as T
 
 LEVEL = "proof"
 RULE = ("exhaustive: every pair (table, queries) of sorted multisets of <=2 rows x <=2 queries over 0..4 "
-        "(quick) / <=2 x <=2 over 0..5 plus a 30% sample of <=2 x 3 over 0..5 (thorough), 1-2 chromosomes, 3 modes x keep_empty, None bounds; "
+        "(quick) / <=2 x <=2 over 0..5 plus a 5% sample of <=2 x 3 over 0..5 (thorough), 1-2 chromosomes, 3 modes x keep_empty, None bounds; "
         "random nested/duplicated/abutting tables <=40 rows; 15% of the exhaustive and 40% of the random cases build "
         "their tables as filtered subsets of larger ones (pandas index labels != row positions). non-trivial = some query overlaps some row "
         "of the same chromosome; distinct by hash of (op, input)")
@@ -64,13 +64,13 @@ def gen_cases(rng, tier):
                     c["in"]["sub"] = sub
             cases += cs
         return cases
-    # thorough: every pair of <=2 x <=2 rows over 0..5 plus a 30% sample of the pairs with 3 query ranges
+    # thorough: every pair of <=2 x <=2 rows over 0..5 plus a 5% sample of the pairs with 3 query ranges
     # (the full <=2 x <=3 scope over 0..6 is several million cases: kept out of the registered command)
     hi, ka, kb = (4, 2, 2) if tier == "quick" else (5, 2, 3)
     A = T.small_tables(hi, ka, prefix="a")
     B = T.small_tables(hi, kb, prefix="b")
     if tier != "quick":
-        B = [b for b in B if len(b) < 3 or rng.random() < 0.3]
+        B = [b for b in B if len(b) < 3 or rng.random() < 0.05]
     for a in A:
         for b in B:
             for c in _pair_ops(a, b):
